@@ -21,6 +21,7 @@ Theorem op_matches_reference o st st' t :
 Proof.
   intros Ht H. destruct o; try exact (clip_dim_denotes _ _ _ _ _ _ Ht H).
   all: try (destruct (append_denotes _ _ _ _ _ _ Ht H) as [A1 A2]; rewrite A1, A2; reflexivity).
+  all: try (destruct (append_p_denotes _ _ _ _ _ _ _ _ _ Ht H) as [A1 A2]; rewrite A1, A2; reflexivity).
   all: unfold mdenote in *; cbn [apply_op ref_apply] in *.
   - (* slice *)
     destruct (zero_step items); [discriminate|].
@@ -75,6 +76,7 @@ Proof.
   intros Hsm Ht H. destruct o.
   17:{ destruct (clip_dim_error _ _ _ _ _ _ Ht H) as [->|Hn]; [now left|now right]. }
   17:{ destruct (append_error _ _ _ _ _ _ Ht H) as [->|Hn]; [now left|now right]. }
+  17:{ destruct (append_p_error _ _ _ _ _ _ _ _ _ Ht H) as [->|Hn]; [now left|now right]. }
   all: unfold mdenote in *; cbn [apply_op ref_apply] in *; try discriminate.
   - right. destruct (zero_step items); [reflexivity|].
     unfold lift in H. destruct (slice false (m_view st) items) eqn:E; [discriminate|].
@@ -143,6 +145,7 @@ Proof.
   pose proof (op_matches_reference o st st' t Ht H) as Hm.
   destruct o; try exact (clip_dim_defined _ _ _ _ _ _ Ht H).
   all: try (destruct (append_denotes _ _ _ _ _ _ Ht H) as [A1 _]; eexists; exact A1).
+  all: try (destruct (append_p_denotes _ _ _ _ _ _ _ _ _ Ht H) as [A1 _]; eexists; exact A1).
   all: unfold mdenote in *; cbn [apply_op ref_apply] in *.
   - destruct (zero_step items); [discriminate|].
     apply lift_ok in H as (v' & Hv & ->). rewrite Hm. exact (slice_defined _ _ _ _ _ Ht Hv).
